@@ -206,6 +206,7 @@ type loc struct {
 	path  []pathStep
 	vsort string
 	cellLocal *ssa.Alloc
+	opaque string
 }
 
 func (fx *fnExec) fail(f string, a ...interface{}) {
@@ -832,7 +833,11 @@ func (fx *fnExec) run() (err error) {
 	fx.entry = st.clone()
 	// global axioms
 	for _, ax := range fx.g.cs.Axioms {
-		c := &specCtx{fx: fx, cur: fx.entry, names: map[string]sval{}, pkg: fx.pkg}
+		apkg := fx.pkg
+		if ax.Pkg != "" {
+			apkg = fx.g.typesPkg[ax.Pkg]
+		}
+		c := &specCtx{fx: fx, cur: fx.entry, names: map[string]sval{}, pkg: apkg}
 		v := c.eval(ax.Expr)
 		fx.asserts = append(fx.asserts, assertion{-1, "(assert " + v.term + ")"})
 	}
@@ -1013,9 +1018,17 @@ func (fx *fnExec) localLookup(st *state, at *ssa.BasicBlock) func(string) (sval,
 			return sval{term: st.cells[best], typ: t, sort: fx.d.SortOf(t)}, true
 		}
 		// heap-allocated named locals (escaping): find the Alloc value
+		wantAddr := false
+		if strings.HasPrefix(name, "addr_") {
+			wantAddr = true
+			name = strings.TrimPrefix(name, "addr_")
+		}
 		for _, blk := range fx.fn.Blocks {
 			for _, in := range blk.Instrs {
 				if al, ok := in.(*ssa.Alloc); ok && al.Heap && al.Comment == name {
+					if v, ok := fx.vals[al]; ok && wantAddr && (at == nil || blk == at || blk.Dominates(at)) {
+						return sval{term: v.term, typ: al.Type(), sort: "Int"}, true
+					}
 					if v, ok := fx.vals[al]; ok && (at == nil || blk == at || blk.Dominates(at)) {
 						t := deref(al.Type())
 						a := fx.addrOfRef(v.term, t)
@@ -1239,7 +1252,7 @@ func (fx *fnExec) loopHead(li *loopInfo, st *state) *state {
 		}
 	}
 	li.headState = h.clone()
-	if li.spec != nil && li.spec.Decreases != nil {
+	if li.spec != nil && li.spec.Decreases != nil && li.spec.Decreases.Src != "*" {
 		v := c1.eval(li.spec.Decreases.Expr)
 		li.variant0 = fx.define(fx.fresh("variant", "Int"), "Int", v.term)
 		li.hasV = true
@@ -1432,6 +1445,10 @@ func (fx *fnExec) backEdgeObls(li *loopInfo, st *state, cond string, pos token.P
 	}
 	if li.rangeCell != nil {
 		return // range loops terminate by construction
+	}
+	if li.spec != nil && li.spec.Decreases != nil && li.spec.Decreases.Src == "*" {
+		fx.assumptionsUsed[fmt.Sprintf("loop %d of %s is declared non-terminating by design (serves until shutdown / peer end); termination not claimed", li.ordinal, fx.g.relKey(fx.fn))] = true
+		return
 	}
 	if li.hasV {
 		v := c.eval(li.spec.Decreases.Expr)
